@@ -25,10 +25,10 @@ import os
 import struct
 from datetime import datetime, timezone
 
-from vcore import Infra, hexs, pyres
+from vcore import REPO, Infra, hexs, pyres
 
 GENERATED = ["HabConsts", "HabFuns"]
-REPO_PKI = "/repo/tests/nxpimage/data/hab/export/keys"
+REPO_PKI = str(REPO / "tests" / "nxpimage" / "data" / "hab" / "export" / "keys")
 TS = "16/05/2023 12:34:08"
 
 
@@ -85,7 +85,10 @@ class Pki:
         for i, sk in enumerate(srk, 1):
             ca_name = f"SRK{i}_{kind}_ca"
             ca = self._cert(ca_name, sk.public_key(), ca_name, sk, 0x1000 + i, True)
-            ent = {"srk_key": sk, "srk_cert": self._w(f"{kind}_SRK{i}_crt.pem", ca.public_bytes(self.ser.Encoding.PEM))}
+            ent = {"srk_key": sk, "srk_cert": self._w(f"crts/{kind}_SRK{i}_crt.pem", ca.public_bytes(self.ser.Encoding.PEM)),
+                   "srk_der": ca.public_bytes(self.ser.Encoding.DER),
+                   "srk_keyfile": self._w(f"keys/{kind}_SRK{i}_key.pem", sk.private_bytes(
+                       self.ser.Encoding.PEM, self.ser.PrivateFormat.PKCS8, self.ser.NoEncryption()))}
             for n in ("CSF", "IMG"):
                 k = leaf(n, i)
                 c = self._cert(f"{n}{i}_1_{kind}_usr", k.public_key(), ca_name, sk, 0x2000 + 16 * i + (n == "IMG"), False)
@@ -196,7 +199,8 @@ def gen_case(rng, pki, devices, i, big):
         kind = rng.choice(list(pki.trees))
         nkeys = rng.randint(1, 4)
         c.update(kind=kind, nkeys=nkeys, src=rng.randrange(nkeys), img_slot=rng.choice([2, 2, 3, 4, 5]),
-                 engine=rng.choice(["ANY", "ANY", "DCP", "CAAM", "SW"]), extra=rng.choice(["", "", "unlock_snvs", "unlock_ocotp", "unlock_caam", "set_engine"]))
+                 engine=rng.choice(["ANY", "ANY", "DCP", "CAAM", "SW"]), extra=rng.choice(["", "", "unlock_snvs", "unlock_ocotp", "unlock_caam", "set_engine"]),
+                 nocak=(mode == "auth" and rng.random() < 0.15))
     if mode == "enc":
         c.update(mac=rng.choice([4, 6, 8, 10, 12, 14, 16, 16]), keybits=rng.choice([128, 192, 256]),
                  dek=bytes(rng.getrandbits(8) for _ in range(32)), key_slot=rng.randrange(4), kek=rng.choice([0, 2, 3]),
@@ -243,9 +247,13 @@ def make_config(c, pki, wd):
         c["_fuses"] = table.export_fuses()
         s += [sec(20, Header_Version=c["version"], Header_HashAlgorithm="sha256", Header_Engine=c["engine"], Header_EngineConfiguration=0,
                   Header_CertificateFormat="x509", Header_SignatureFormat="CMS"),
-              sec(21, InstallSRK_Table=w("srk_table.bin", table.export()), InstallSRK_SourceIndex=c["src"]),
-              sec(22, InstallCSFK_File=ent["csf_cert"], InstallCSFK_CertificateFormat="x509"),
-              sec(24, AuthenticateCsf_PrivateKeyFile=ent["csf_key"])]
+              sec(21, InstallSRK_Table=w("srk_table.bin", table.export()), InstallSRK_SourceIndex=c["src"])]
+        if c.get("nocak"):   # HAB4 fast authentication: the SRK itself signs the CSF and the image
+            s += [sec(23, InstallNOCAK_File=ent["srk_cert"], InstallNOCAK_CertificateFormat="x509"),
+                  sec(24, AuthenticateCsf_PrivateKeyFile=ent["srk_keyfile"])]
+        else:
+            s += [sec(22, InstallCSFK_File=ent["csf_cert"], InstallCSFK_CertificateFormat="x509"),
+                  sec(24, AuthenticateCsf_PrivateKeyFile=ent["csf_key"])]
         if c["extra"] == "unlock_snvs":
             s.append(sec(33, Unlock_Engine="SNVS", Unlock_features="ZMK WRITE"))
         elif c["extra"] == "unlock_ocotp":
@@ -254,9 +262,13 @@ def make_config(c, pki, wd):
             s.append(sec(33, Unlock_Engine="CAAM", Unlock_features="RNG"))
         elif c["extra"] == "set_engine":
             s.append(sec(31, SetEngine_HashAlgorithm="sha256", SetEngine_Engine="DCP", SetEngine_EngineConfiguration=0))
-        s += [sec(25, InstallKey_File=ent["img_cert"], InstallKey_VerificationIndex=0, InstallKey_TargetIndex=c["img_slot"]),
-              sec(26, AuthenticateData_VerificationIndex=c["img_slot"], AuthenticateData_Engine=c["engine"], AuthenticateData_EngineConfiguration=0,
-                  AuthenticateData_PrivateKeyFile=ent["img_key"])]
+        if c.get("nocak"):
+            s += [sec(26, AuthenticateData_VerificationIndex=0, AuthenticateData_Engine=c["engine"], AuthenticateData_EngineConfiguration=0,
+                      AuthenticateData_PrivateKeyFile=ent["srk_keyfile"])]
+        else:
+            s += [sec(25, InstallKey_File=ent["img_cert"], InstallKey_VerificationIndex=0, InstallKey_TargetIndex=c["img_slot"]),
+                  sec(26, AuthenticateData_VerificationIndex=c["img_slot"], AuthenticateData_Engine=c["engine"], AuthenticateData_EngineConfiguration=0,
+                      AuthenticateData_PrivateKeyFile=ent["img_key"])]
     if c["mode"] == "enc":
         d = {"Decrypt_Engine": "ANY", "Decrypt_EngineConfiguration": "0", "Decrypt_VerifyIndex": c["key_slot"], "Decrypt_MacBytes": c["mac"]}
         if c["nonce"]:
@@ -396,7 +408,7 @@ def run_case(ck, s, drv, c, pki, wd, reqs):
     from spsdk.image.hab.hab_container import HabContainer
     cid = case_id(c)
     cfg = make_config(c, pki, wd)
-    cls = f"{c['mode']}" + ("+dcd" if c["dcd"] else "") + ("+xmcd" if c["xmcd"] else "")
+    cls = f"{c['mode']}" + ("+nocak" if c.get("nocak") else "") + ("+dcd" if c["dcd"] else "") + ("+xmcd" if c["xmcd"] else "")
     s.note(cid, cls=cls)
     r = pyres(HabContainer.load_from_config, cfg)
     if r[0] != "ok":
@@ -533,21 +545,28 @@ def check_csf(s, cid, c, img, csf_off, e_self, e_csf, app_off, app16, pki, hab, 
     a_csf = next((d for d in aut if d["proto"] == 0xC5 and not d["blocks"]), None)
     a_dat = next((d for d in aut if d["proto"] == 0xC5 and d["blocks"]), None)
     a_dec = next((d for d in aut if d["proto"] == 0xA3), None)
-    ok = s.expect(all(x is not None for x in (srk_cmd, csfk_cmd, imgk_cmd, a_csf, a_dat)) and (a_dec is not None) == enc and (sk_cmd is not None) == enc,
-                  cid, "CSF does not contain Install SRK / Install CSFK / Authenticate CSF / Install Key / Authenticate Data (/ Install Secret Key / Decrypt Data)",
-                  [(d["tag"], d.get("proto")) for d in cmds])
+    fast = bool(c.get("nocak"))
+    need = (srk_cmd, a_csf, a_dat) if fast else (srk_cmd, csfk_cmd, imgk_cmd, a_csf, a_dat)
+    ok = s.expect(all(x is not None for x in need) and (a_dec is not None) == enc and (sk_cmd is not None) == enc
+                  and (not fast or (csfk_cmd is None and imgk_cmd is None)),
+                  cid, "CSF does not contain Install SRK / Install CSFK / Authenticate CSF / Install Key / Authenticate Data (/ Install Secret Key / Decrypt Data); "
+                  "fast authentication: Install SRK / Authenticate CSF / Authenticate Data only", [(d["tag"], d.get("proto")) for d in cmds])
     if not ok:
         return b"", b"", None, None
     s.expect(srk_cmd["src"] == c["src"] and srk_cmd["tgt"] == 0 and srk_cmd["par"] == 0 and srk_cmd["alg"] == 0x17, cid, "Install SRK fields", srk_cmd["raw"].hex())
-    s.expect(csfk_cmd["src"] == 0 and csfk_cmd["tgt"] == 1, cid, "Install CSFK fields", csfk_cmd["raw"].hex())
-    s.expect(imgk_cmd["src"] == 0 and imgk_cmd["tgt"] == c["img_slot"], cid, "Install Key fields", imgk_cmd["raw"].hex())
     s.expect(a_csf["key"] == 1 and a_csf["par"] == 0, cid, "Authenticate CSF must use key slot 1", a_csf["raw"].hex())
-    s.expect(a_dat["key"] == c["img_slot"] and a_dat["par"] == 0, cid, "Authenticate Data must use the installed image key slot", a_dat["raw"].hex())
-    order = [d["off"] for d in (srk_cmd, csfk_cmd, a_csf, imgk_cmd, a_dat)]
+    if fast:
+        s.expect(a_dat["key"] == 0 and a_dat["par"] == 0, cid, "fast authentication: Authenticate Data must use key index 0 (the SRK)", a_dat["raw"].hex())
+    else:
+        s.expect(csfk_cmd["src"] == 0 and csfk_cmd["tgt"] == 1, cid, "Install CSFK fields", csfk_cmd["raw"].hex())
+        s.expect(imgk_cmd["src"] == 0 and imgk_cmd["tgt"] == c["img_slot"], cid, "Install Key fields", imgk_cmd["raw"].hex())
+        s.expect(a_dat["key"] == c["img_slot"] and a_dat["par"] == 0, cid, "Authenticate Data must use the installed image key slot", a_dat["raw"].hex())
+    order = [d["off"] for d in ((srk_cmd, a_csf, a_dat) if fast else (srk_cmd, csfk_cmd, a_csf, imgk_cmd, a_dat))]
     s.expect(order == sorted(order), cid, "CSF command order", order)
     # data references: behind the commands, aligned, disjoint, inside the CSF
     refs = []
-    for d, tag in ((srk_cmd, 0xD7), (csfk_cmd, 0xD7), (a_csf, 0xD8), (imgk_cmd, 0xD7), (a_dat, 0xD8)) + (((a_dec, 0xAC),) if enc else ()):
+    for d, tag in (((srk_cmd, 0xD7), (a_csf, 0xD8), (a_dat, 0xD8)) if fast else ((srk_cmd, 0xD7), (csfk_cmd, 0xD7), (a_csf, 0xD8), (imgk_cmd, 0xD7), (a_dat, 0xD8))) \
+            + (((a_dec, 0xAC),) if enc else ()):
         t, bver, b = blob(csf, d["loc"])
         s.expect(t == tag and d["loc"] >= hdr_len and d["loc"] % 4 == 0 and d["loc"] + len(b) <= 0x2000, cid,
                  "a command's data reference does not designate a block of the right kind inside the CSF behind the commands", (d["raw"].hex(), t, len(b)))
@@ -567,13 +586,18 @@ def check_csf(s, cid, c, img, csf_off, e_self, e_csf, app_off, app16, pki, hab, 
     ent = pki.trees[c["kind"]][c["src"]]
     srk_pub = keys[srk_cmd["src"]][1]
     s.expect(srk_pub.public_numbers() == ent["srk_key"].public_key().public_numbers(), cid, "SRK[source index] is not the selected root key")
-    csf_cert = blob(csf, csfk_cmd["loc"])[2][4:]
-    img_cert = blob(csf, imgk_cmd["loc"])[2][4:]
-    s.expect(csf_cert == ent["csf_der"] and img_cert == ent["img_der"], cid, "installed certificates are not the configured ones (DER)")
-    for name, der in (("CSF", csf_cert), ("IMG", img_cert)):
-        crt = x509.load_der_x509_certificate(der)
-        s.expect(verify_with(srk_pub, crt.signature, crt.tbs_certificate_bytes, crt.signature_hash_algorithm), cid,
-                 f"the installed {name} certificate does not verify under SRK[source index]")
+    if fast:   # no certificate in the CSF: the signer is the SRK itself
+        csf_cert = img_cert = ent["srk_der"]
+        crt = x509.load_der_x509_certificate(csf_cert)
+        s.expect(crt.public_key().public_numbers() == srk_pub.public_numbers(), cid, "fast authentication: signer certificate is not SRK[source index]")
+    else:
+        csf_cert = blob(csf, csfk_cmd["loc"])[2][4:]
+        img_cert = blob(csf, imgk_cmd["loc"])[2][4:]
+        s.expect(csf_cert == ent["csf_der"] and img_cert == ent["img_der"], cid, "installed certificates are not the configured ones (DER)")
+        for name, der in (("CSF", csf_cert), ("IMG", img_cert)):
+            crt = x509.load_der_x509_certificate(der)
+            s.expect(verify_with(srk_pub, crt.signature, crt.tbs_certificate_bytes, crt.signature_hash_algorithm), cid,
+                     f"the installed {name} certificate does not verify under SRK[source index]")
     # signatures
     sig_csf = blob(csf, a_csf["loc"])[2][4:]
     sig_dat = blob(csf, a_dat["loc"])[2][4:]
@@ -707,7 +731,7 @@ def run(ck):
               "DCD, SRK table and certificates are opaque blocks with a declared length in the model; the DCD files are built with SPSDK's own SegDCD (canonical form)",
               "AES block function of the model driver = Crypto.Aes (validated against cryptography by C09)",
               "configurations with both DCD and XMCD (both at IVT+0x40: SPSDK overlays them silently) and CSFs larger than CSF_SIZE are outside the modelled domain")
-    kinds = ["rsa4096", "p256", "p384", "p521"] if ck.quick else ["rsa4096", "rsa2048", "p256", "p384", "p521"]
+    kinds = ["rsa4096", "rsa2048", "p256", "p384", "p521"]
     pki = Pki(rng, scratch, kinds)
     n = ck.budget(len(devices) * 3 + 12, 2500)
     big = ck.budget(20000, 65536)
@@ -725,7 +749,144 @@ def run(ck):
     settle(ck, s, drv, reqs)
 
 
+    both_stream(ck, pki, devices, scratch)
+    cli_stream(ck, pki, devices, scratch)
     side_streams(ck, drv)
+
+
+SECTION_NAMES = {20: ("SEC_CSF_HEADER", "Header"), 21: ("SEC_CSF_INSTALL_SRK", "InstallSRK"), 22: ("SEC_CSF_INSTALL_CSFK", "InstallCSFK"),
+                 23: ("SEC_CSF_INSTALL_NOCAK", "InstallNOCAK"), 24: ("SEC_CSF_AUTHENTICATE_CSF", "AuthenticateCSF"), 25: ("SEC_CSF_INSTALL_KEY", "InstallKey"),
+                 26: ("SEC_CSF_AUTHENTICATE_DATA", "AuthenticateData"), 27: ("SEC_CSF_INSTALL_SECRET_KEY", "SecretKey"), 28: ("SEC_CSF_DECRYPT_DATA", "Decrypt"),
+                 29: ("SEC_NOP", "NOP"), 30: ("SEC_SET_MID", "SetMid"), 31: ("SEC_SET_ENGINE", "SetEngine"), 32: ("SEC_INIT", "Init"), 33: ("SEC_UNLOCK", "Unlock")}
+
+
+def to_bd(cfg):
+    """the configuration dictionary as BD text (the command-file format of tests/nxpimage/data/hab)"""
+    def val(v):
+        return f'"{v}"' if isinstance(v, str) else (f"{v:#x}" if isinstance(v, int) and v > 9 else str(v))
+    out = ["options {"] + [f"    {k} = {val(v)};" for k, v in cfg["options"].items()] + ["}", "", "sources {", "    elfFile = extern(0);", "}", "", "constants {"]
+    out += [f"    {n} = {i};" for i, (n, _) in sorted(SECTION_NAMES.items())] + ["}", ""]
+    for sct in cfg["sections"]:
+        opts = [(k, v) for d in sct["options"] for k, v in d.items()]
+        out.append(f"section ({SECTION_NAMES[sct['section_id']][0]};" + (" " if opts else "") + ",\n    ".join(f"{k}={val(v)}" for k, v in opts) + ")\n{\n}\n")
+    return "\n".join(out)
+
+
+def to_yaml(cfg):
+    """the same configuration in the flat YAML structure (`nxpimage hab convert` output)"""
+    import yaml
+    doc = {"inputImageFile": cfg["sources"]["elfFile"], "options": dict(cfg["options"]),
+           "sections": [{SECTION_NAMES[sct["section_id"]][1]: {k: v for d in sct["options"] for k, v in d.items()}} for sct in cfg["sections"]]}
+    return yaml.safe_dump(doc, sort_keys=False)
+
+
+def cli_stream(ck, pki, devices, scratch):
+    """the glue around the builder: BD text / YAML command file -> `nxpimage hab export` -> `nxpimage hab parse`, through click"""
+    from click.testing import CliRunner
+    from spsdk.apps import nxpimage
+    from spsdk.image.hab.hab_container import HabContainer
+    from spsdk.image.hab.segments import SEGMENTS_MAPPING
+    rng = ck.rng
+    sc = ck.stream("cli", "command files written as BD text and as YAML (plain / RSA-authenticated / RSA-encrypted with a given nonce, so the output is deterministic): "
+                   "`nxpimage hab export` writes byte for byte what HabContainer.load_from_config(dict).export() gives, and `nxpimage hab parse` writes the builder's "
+                   "segments. non-trivial = distinct configuration x file format")
+    runner = CliRunner()
+    done = 0
+    for i in range(400):
+        if done >= ck.budget(8, 60):
+            break
+        c = gen_case(rng, pki, devices, rng.randrange(3 * len(devices)), 6000)
+        if c["mode"] != "plain" and not c["kind"].startswith("rsa"):
+            continue
+        if c["mode"] == "enc" and not c["nonce"]:
+            c["nonce"] = bytes(rng.getrandbits(8) for _ in range(13))
+        if c["mode"] != "plain":
+            c["img_slot"] = rng.choice([2, 4])
+        fmt = "bd" if done % 2 == 0 else "yaml"
+        wd = os.path.join(scratch, f"cli{done}")
+        cfg = make_config(c, pki, wd)
+        cid = dict(case_id(c), fmt=fmt)
+        sc.note(cid, cls=f"{fmt}:{c['mode']}")
+        done += 1
+        ref = pyres(lambda: HabContainer.load_from_config(cfg))
+        if ref[0] != "ok":
+            sc.expect(False, cid, "load_from_config raised on a valid configuration", ref)
+            continue
+        hab = ref[1]
+        img = hab.export()
+        cmd_file = os.path.join(wd, "config." + fmt)
+        with open(cmd_file, "w", encoding="utf-8") as f:
+            f.write(to_bd(cfg) if fmt == "bd" else to_yaml(cfg))
+        out = os.path.join(wd, "out.bin")
+        args = ["hab", "export", "-c", cmd_file, "-o", out] + ([cfg["sources"]["elfFile"]] if fmt == "bd" else [])
+        res = runner.invoke(nxpimage.main, args, catch_exceptions=True)
+        if res.exit_code != 0 or not os.path.isfile(out):
+            sc.expect(False, cid, "`nxpimage hab export` failed on a configuration load_from_config accepts", (res.exit_code, (res.output or "")[-300:], repr(res.exception)[:200]))
+            continue
+        with open(out, "rb") as f:
+            cli_img = f.read()
+        sc.expect(cli_img == img, cid, "`nxpimage hab export` output differs from HabContainer.load_from_config(...).export()",
+                  (len(cli_img), next((k for k in range(min(len(cli_img), len(img))) if cli_img[k] != img[k]), None)), len(img))
+        e_app = struct.unpack_from("<I", img, 4)[0]
+        if c["mode"] == "enc" or not app_heuristic_ok(img, e_app, c["ils"] - c["ivt"]):
+            continue
+        pdir = os.path.join(wd, "parsed")
+        res = runner.invoke(nxpimage.main, ["hab", "parse", "-b", out, "-o", pdir], catch_exceptions=True)
+        if res.exit_code != 0:
+            sc.expect(False, cid, "`nxpimage hab parse` failed on an image SPSDK built", (res.exit_code, (res.output or "")[-300:]))
+            continue
+        for seg_name in SEGMENTS_MAPPING:
+            seg = hab.get_segment(seg_name)
+            fp = os.path.join(pdir, f"{seg_name.label}.bin")
+            if seg is None:
+                sc.expect(not os.path.exists(fp), cid, f"`nxpimage hab parse` wrote a {seg_name.label} segment the image does not have")
+                continue
+            data = open(fp, "rb").read() if os.path.isfile(fp) else None
+            want = seg.export()
+            same = data is not None and (data == want if seg_name.label != "app" else data[:len(want)] == want and not any(data[len(want):]))
+            sc.expect(same, cid, f"`nxpimage hab parse` does not write the builder's {seg_name.label} segment", None if data is None else len(data), len(want))
+
+
+def both_stream(ck, pki, devices, scratch):
+    """DCD and XMCD in one configuration: both are placed at IVT+0x40"""
+    from spsdk.image.hab.hab_container import HabContainer
+    from spsdk.image.hab.segments import HabSegment
+    rng = ck.rng
+    sb = ck.stream("dcd_and_xmcd", "configurations with a DCD file AND an XMCD file (plain and authenticated): either the builder refuses the configuration "
+                   "(SPSDKError) or the image carries both and parses back into the same DCD and XMCD. non-trivial = distinct configuration")
+    for i in range(ck.budget(6, 40)):
+        c = gen_case(rng, pki, devices, rng.randrange(len(devices)), 3000)
+        c["mode"] = "plain" if i % 2 == 0 else "auth"
+        c.update(dcd=None, xmcd=None, entry=None)
+        if c["mode"] == "auth" and "kind" not in c:
+            kind = rng.choice(list(pki.trees))
+            c.update(kind=kind, nkeys=2, src=1, img_slot=2, engine="ANY", extra="", nocak=False)
+        room = c["ils"] - c["ivt"] - 0x40
+        if room < 0x40:
+            continue
+        c["dcd"] = gen_dcd(rng, min(room, 0xB8))
+        c["xmcd"] = gen_xmcd(rng)[:4 + 12]
+        c["xmcd"] = bytes([len(c["xmcd"]) & 0xFF, c["xmcd"][1] & 0xF0, c["xmcd"][2], 0xC0]) + c["xmcd"][4:]
+        cid = case_id(c)
+        sb.note(cid, cls=c["mode"])
+        r = pyres(HabContainer.load_from_config, make_config(c, pki, os.path.join(scratch, "wb")))
+        if r[0] == "E:spsdk":
+            continue   # refused: the property only speaks about images SPSDK builds
+        if r[0] != "ok":
+            sb.expect(False, cid, "load_from_config raised a non-SPSDK exception", r)
+            continue
+        img = pyres(r[1].export)
+        if img[0] != "ok":
+            sb.expect(False, cid, "export raised", img)
+            continue
+        img = img[1]
+        dptr = struct.unpack_from("<I", img, 12)[0] - struct.unpack_from("<I", img, 20)[0]
+        sb.expect(img[dptr:dptr + len(c["dcd"])] == c["dcd"] and img[64:64 + len(c["xmcd"])] == c["xmcd"], cid,
+                  "the image does not contain the DCD where the IVT points and the XMCD block at IVT+0x40 (one overwrites the other)",
+                  (dptr, img[dptr:dptr + 8].hex()), c["dcd"][:8].hex(), finding="C07-dcd-xmcd-overlay")
+        pr = pyres(HabContainer.parse, img)
+        back = pr[0] == "ok" and pyres(lambda: pr[1].get_segment(HabSegment.DCD).export() == c["dcd"] and pr[1].get_segment(HabSegment.XMCD).export() == c["xmcd"]) == ("ok", True)
+        sb.expect(back, cid, "parse does not give back the DCD and the XMCD of the configuration", pr[0], finding="C07-dcd-xmcd-overlay")
 
 
 def side_streams(ck, drv):
